@@ -88,23 +88,24 @@ void adapter_exec(Ev *ev)
         return;
     }
     if (ev_is(ev, "cuse") || ev_is(ev, "csink")) {
-        size_t nc = (size_t)ev->a[1];
+        size_t act = (size_t)ev->a[1];
+        size_t nc = (size_t)ev->a[2];
         ByteBuffer *cs = calloc(nc ? nc : 1, sizeof *cs);
         unsigned char **blks = calloc(nc ? nc : 1, sizeof *blks);
         size_t base = 0;
         for (size_t i = 0; i < nc; i++) {
-            blks[i] = mkbuf(&cs[i], ev->a + 2 + 3 * i);
+            blks[i] = mkbuf(&cs[i], ev->a + 3 + 3 * i);
             (void)base;
         }
         if (ev_is(ev, "cuse")) {
             LengthPrefixChunks lpc;
             memset(&lpc, 0, sizeof lpc);
-            lpc.payload.chunks = nc; lpc.payload.active = 0; lpc.payload.chunk = cs;
+            lpc.payload.chunks = nc; lpc.payload.active = act; lpc.payload.chunk = cs;
             int rc = flenp_chunks_use(k, &lpc);
             obs(ev, rcc(rc));
             if (rc >= 0) { obs(ev, -7); put_prefix(ev, &lpc.prefix); }
         } else {
-            ByteChunks bc = { nc, 0, cs };
+            ByteChunks bc = { nc, act, cs };
             ssize_t rc = flenp_chunks_to_sink(k, &sink, &bc);
             obs(ev, rcc(rc)); obs(ev, -7);
             if (rc >= 0) put_sink(ev);
